@@ -226,7 +226,7 @@ pub fn run(b: &mut Built, op: &Op, pfx: &str, env: Envelope) -> StepOut {
             let pk = b.chain.w.packets.iter().find(|p| p.seq == *seq).cloned();
             let r = b.chain.ibc_outcome(*seq, *outcome);
             if let Some(p) = pk {
-                if *outcome == 0 && p.state == PState::Sent && p.denom == addr::NATIVE_DENOM && p.receiver == who.staker {
+                if *outcome == 0 && p.state == PState::Sent && p.denom == addr::NATIVE_DENOM && p.sender == who.contract {
                     b.ghost.delivered = t::add(&b.ghost.delivered, &p.amount);
                 }
             }
@@ -550,11 +550,11 @@ pub fn post_inv(cx: &Ctx, b: &Built, s: &StepOut) {
     }
 }
 
-fn check_transfer_shape(cx: &Ctx, m: &Emitted, now: u64, label: &str) {
+fn check_transfer_shape(cx: &Ctx, m: &Emitted, now: u64, label: &str, configured_channel: &str) {
     if let Emitted::Transfer { sender, channel, port, memo, timeout_ns, timeout_height_set, sub, seq, .. } = m {
         claim(cx.f, &format!("C07:{label} transfer is a reply-always sub-message"), matches!(sub, Some((_, ReplyOn::Always))));
         claim(cx.f, &format!("C07:{label} transfer sender is the contract"), *sender == cx.who.contract);
-        claim(cx.f, &format!("C07:{label} transfer uses the configured channel and port"), channel == addr::CHANNEL && port == "transfer");
+        claim(cx.f, &format!("C07:{label} transfer uses the configured channel and port"), channel == configured_channel && port == "transfer");
         claim(cx.f, &format!("C07:{label} transfer memo names the contract as ibc_callback"), *memo == format!("{{\"ibc_callback\":\"{}\"}}", cx.who.contract));
         claim(cx.f, &format!("C07:{label} transfer carries a future timeout"), *timeout_ns > now * 1_000_000_000 && !*timeout_height_set);
         claim(cx.f, &format!("C07:{label} transfer got a sequence"), seq.is_some());
@@ -672,6 +672,7 @@ pub fn post_op(cx: &Ctx, b: &Built, op: &Op, s: &StepOut) {
                     claim(f, "C19:mint bytes are canonical protobuf", *canonical);
                 }
                 prove(f, "C04:minted = floor(amount*totalLST/totalStaked) (1:1 when nothing staked)", t::eq(&m_term, &m_spec));
+                prove(f, "C19:mint message carries exactly the amount added to the LST total", t::eq(&t::add(&pre.l, &m_term), &post.l));
                 prove(f, "C04:minted amount is never zero", t::gt(&m_term, "0"));
                 prove(f, "C04:amount at or above the configured minimum", t::ge(&a, &min));
                 if *expected {
@@ -687,11 +688,11 @@ pub fn post_op(cx: &Ctx, b: &Built, op: &Op, s: &StepOut) {
                 let native_tr: Vec<&&Emitted> = tr.iter().filter(|m| matches!(m, Emitted::Transfer { denom, .. } if denom == addr::NATIVE_DENOM)).collect();
                 claim(f, "C01:exactly one staked-asset transfer to the staker", native_tr.len() == 1);
                 if let Some(Emitted::Transfer { receiver, amount, .. }) = native_tr.first().map(|x| **x) {
-                    claim(f, "C01:stake transfer goes to the configured staker", *receiver == who.staker.to_string());
+                    claim(f, "C01:stake transfer goes to the configured staker", *receiver == pre.cfg.native_chain_config.staker_address.to_string());
                     prove(f, "C01:stake forwards exactly the paid amount", t::eq(amount, &a));
                 }
                 for m in &tr {
-                    check_transfer_shape(cx, m, s.now, "stake");
+                    check_transfer_shape(cx, m, s.now, "stake", &pre.cfg.protocol_chain_config.ibc_channel_id);
                 }
                 let recipient = match mint_to {
                     MintTo::None => who_addr(who, sender),
@@ -782,6 +783,7 @@ pub fn post_op(cx: &Ctx, b: &Built, op: &Op, s: &StepOut) {
                     claim(f, "C19:burn sender and holder are the contract, denom is the LST", *sender == who.contract && *from == who.contract && *denom == lst);
                     claim(f, "C19:burn bytes are canonical protobuf", *canonical);
                     prove(f, "C03:submit burns exactly the batch total", t::eq(amount, &pb.total));
+                    prove(f, "C19:burn message carries exactly the batch total", t::eq(amount, &pb.total));
                 }
                 claim(f, "C03:submit emits no other message", msgs.len() == 1 + posts(msgs).len());
                 reqs_same(f, "C05:submit leaves requests untouched", pre, post, None);
@@ -851,13 +853,13 @@ pub fn post_op(cx: &Ctx, b: &Built, op: &Op, s: &StepOut) {
                 prove(f, "C11:reward counter grows by the full reward", t::eq(&post.rewards, &t::add(&pre.rewards, &x)));
                 prove(f, "C03:rewards leave the LST total alone", t::eq(&post.l, &pre.l));
                 let tr = transfers(msgs);
-                claim(f, "C01:rewards forward exactly one transfer to the staker", tr.len() == 1 && matches!(tr[0], Emitted::Transfer { receiver, denom, .. } if *receiver == who.staker && denom == addr::NATIVE_DENOM));
+                claim(f, "C01:rewards forward exactly one transfer to the staker", tr.len() == 1 && matches!(tr[0], Emitted::Transfer { receiver, denom, .. } if *receiver == pre.cfg.native_chain_config.staker_address.to_string() && denom == addr::NATIVE_DENOM));
                 if let Some(Emitted::Transfer { amount, .. }) = tr.first() {
                     prove(f, "C01:forwarded amount = reward - fee", t::eq(amount, &rest));
                     prove(f, "C11:fee + restaked = reward", t::eq(&t::add(&fee, amount), &x));
                 }
                 for m in &tr {
-                    check_transfer_shape(cx, m, s.now, "rewards");
+                    check_transfer_shape(cx, m, s.now, "rewards", &pre.cfg.protocol_chain_config.ibc_channel_id);
                 }
                 let ss = sends(msgs);
                 match &pre.cfg.protocol_fee_config.treasury_address {
@@ -906,7 +908,7 @@ pub fn post_op(cx: &Ctx, b: &Built, op: &Op, s: &StepOut) {
         }
         Op::Recover { sender, paginated, selected, receiver, .. } => {
             let recv = match receiver {
-                None => who.staker.clone(),
+                None => pre.cfg.native_chain_config.staker_address.to_string(),
                 Some("staker") => who.staker.clone(),
                 Some("n1") => who.n1.clone(),
                 Some("n2") => who.n2.clone(),
@@ -950,7 +952,7 @@ pub fn post_op(cx: &Ctx, b: &Built, op: &Op, s: &StepOut) {
                     claim(f, "C07:re-sent transfer gets a fresh sequence", seq.map(|q| !pre.packets.contains_key(&q)).unwrap_or(false));
                 }
                 for m in &tr {
-                    check_transfer_shape(cx, m, s.now, "recover");
+                    check_transfer_shape(cx, m, s.now, "recover", &pre.cfg.protocol_chain_config.ibc_channel_id);
                 }
                 packets_same(f, "C07:other tracked transfers untouched by recovery", pre, post, &removed);
                 prove_same(f, "C01:recovery leaves the totals alone", &[(&post.n, &pre.n), (&post.l, &pre.l), (&post.fees, &pre.fees), (&post.rewards, &pre.rewards)]);
